@@ -747,7 +747,7 @@ func totality(c *vf.Ctx, m mode, phase int) bool {
 						limit = len(full)
 					}
 					for t := 0; t < limit; t++ {
-						check("declared-length sweep, cut off", &budgetReader{data: full[:t]}, uint32(l), body, false, map[string]any{"padding_length": pad, "cut": t})
+						check("declared-length sweep, cut off", &budgetReader{data: full[:t]}, uint32(l), body, authentic && t >= len(wire), map[string]any{"padding_length": pad, "cut": t})
 					}
 				}
 			}
